@@ -171,3 +171,28 @@ Section Global.
     unfold Rmin, Rmax in *. destruct (Rle_dec (T (e_from e)) (e_text e)); lra.
   Qed.
 End Global.
+
+(* [up] from a checkable condition: the flow graph is acyclic (a rank strictly increases along every edge - e.g.
+   the pressure ordering of a net of passive branches) and every node that is not an infeed node has an inflow
+   (true by the definition of the kernel's infeed set for every node touched by flow).  Then every node is
+   downstream of an infeed node. *)
+Section Acyclic.
+  Variable n : nat.
+  Variable infeed : nat -> bool.
+  Variable es : list edge.
+  Variable rank : nat -> nat.
+  Hypothesis H_range : forall e, In e es -> (e_from e < n)%nat /\ (e_to e < n)%nat.
+  Hypothesis H_rank : forall e, In e es -> (rank (e_from e) < rank (e_to e))%nat.
+  Hypothesis H_inflow : forall i, (i < n)%nat -> infeed i = false -> exists e, In e es /\ e_to e = i.
+
+  Theorem up_from_rank : forall i, (i < n)%nat -> up infeed es i.
+  Proof.
+    assert (H : forall k i, rank i = k -> (i < n)%nat -> up infeed es i).
+    { induction k as [k IH] using lt_wf_ind. intros i Hk Hi.
+      destruct (infeed i) eqn:E; [apply up_feed; assumption|].
+      destruct (H_inflow i Hi E) as [e [Hin Hto]]. rewrite <- Hto. apply up_edge; [assumption|].
+      apply (IH (rank (e_from e))); [|reflexivity|apply H_range; assumption].
+      rewrite <- Hk, <- Hto. apply H_rank. assumption. }
+    intros i Hi. apply (H (rank i) i eq_refl Hi).
+  Qed.
+End Acyclic.
